@@ -31,7 +31,12 @@ pub fn run(id: &str, data: &[u8]) {
         let mut st = Stats { frozen: true, ..Stats::default() };
         let r = match guard(|| p.run(&tape, &mut st)) {
             Ok(r) => r,
-            Err(panic) => Err(crate::engine::Failure::new(format!("panic: {panic}"))),
+            Err(panic) => {
+                // a panic of the harness itself (lol-html panics are caught and judged inside the
+                // oracles): inconclusive, never a violation
+                eprintln!("HARNESS ERROR in fuzz target {id}: {panic}");
+                std::process::abort();
+            }
         };
         r.err().filter(|f| f.known.is_none()).map(|f| (f.msg, p.describe(&tape)))
     });
